@@ -35,6 +35,10 @@ def build(spec):
     est = ["nonparametric", "gaussian", "bootstrap"][i % 3]
     o = dict(estimator=est, feed_n_missing=0, feed_frac_reporting=0.6, B=10, el_n_units=int(rng.integers(50, 130)),
              n_estimands=int(gen.choice(rng, [2, 3, 2])), district=bool(i % 4 == 3))
+    if i % 6 == 4 and est != "bootstrap":
+        # grouping columns delivered as integers, several estimands: the key columns of a table do not depend on how
+        # many estimands are merged into it
+        o.update(int_key=True, district=True, feed_n_unexpected=0, n_estimands=3, allow_pointer_config=False)
     if i % 5 == 1 and est != "bootstrap":
         o.update(pointer_config=True, n_estimands=3)  # primary-style config: several candidates share one baseline
     el, feed, status, call = cases_mod.build(spec["seed"], PROPERTY, i, o)
